@@ -227,7 +227,8 @@ def gen_perc(rnd):
     n, edges = rand_graph(rnd, 1, 9)
     M = len(edges)
     T = rnd.choice([0.0, 1.0, 0.5, 0.25, 0.75, 0.125, rnd.random(), (rnd.randrange(M + 1) / M) if M else 0.5])
-    spec = dict(kind='perc', n=n, edges=edges, T=T, seed=rnd.random(), follow=rnd.random() < 0.5)
+    spec = dict(kind='perc', n=n, edges=edges, T=T, seed=rnd.random(), follow=rnd.random() < 0.5, limit1=rnd.random() < 0.3,
+                labels=rnd.choice(['int', 'int', 'str', 'mixed']))
     if rnd.random() < 0.4 and M:
         # an earlier run of the same objects over a different network (often one with the same number of edges)
         perm = list(range(n)); rnd.shuffle(perm)
@@ -241,14 +242,20 @@ class Probe(Process):
     """a later component of the sequence: records the network it is built on"""
     def build(self, params):
         super().build(params)
-        Probe.seen = sorted(tuple(sorted(e)) for e in self.network().edges())
+        Probe.seen = list(self.network().edges())
 
 
 def run_perc14(spec):
     rnd = random.Random(spec['seed'])
     percmod.numpy = Shim(rnd)
     n = spec['n']
-    g = nx.Graph(); g.add_nodes_from(range(n)); g.add_edges_from([tuple(e) for e in spec['edges']])
+    # node labels: integers, strings, or a mixture of both (a bipartite people / households network, say); the model works with positions
+    kind = spec.get('labels', 'int')
+    lab = (lambda i: i) if kind == 'int' else (lambda i: f"n{i:02d}") if kind == 'str' else (lambda i: i if i % 2 == 0 else f"s{i}")
+    ix = {lab(i): i for i in range(n)}
+    I = lambda v: ix.get(v, v if isinstance(v, int) and kind == 'int' else -1 - abs(hash(str(v))) % 1000)     # unknown labels stay visible as negatives
+    canon = lambda es: sorted(tuple(sorted((I(a), I(b)))) for (a, b) in es)
+    g = nx.Graph(); g.add_nodes_from(lab(i) for i in range(n)); g.add_edges_from([(lab(a), lab(b)) for (a, b) in spec['edges']])
     proto = g.copy(); T = spec['T']
     st = {}
 
@@ -274,12 +281,13 @@ def run_perc14(spec):
     Probe.seen = None
     p = P()
     top = ProcessSequence([p, Probe()]) if spec.get('follow') else p
-    d = StochasticDynamics(top, g)
+    from epydemic import FixedNetwork
+    d = StochasticDynamics(top, FixedNetwork(g, limit=1) if spec.get('limit1') and spec.get('prev_edges') is None else g)
     exp = []; viol = []; info = dict(samples=1, exc=None)
     try:
         if spec.get('prev_edges') is not None:
             from epydemic import FixedNetwork
-            g0 = nx.Graph(); g0.add_nodes_from(range(n)); g0.add_edges_from([tuple(e) for e in spec['prev_edges']])
+            g0 = nx.Graph(); g0.add_nodes_from(lab(i) for i in range(n)); g0.add_edges_from([(lab(a), lab(b)) for (a, b) in spec['prev_edges']])
             d.setNetworkGenerator(FixedNetwork(g0))
             d.set({Percolate.T: spec['prev_T']}); d.setUp(d.parameters()); d.tearDown()
             d.setNetworkGenerator(FixedNetwork(g)); order.clear(); st.clear(); Probe.seen = None
@@ -287,23 +295,23 @@ def run_perc14(spec):
         wg = d.network()
         M = len(order.get('es', []))
         occ = int(M * T)
-        kept = sorted(tuple(sorted(e)) for e in wg.edges())
-        canon = lambda es: sorted(tuple(sorted(e)) for e in es)
+        kept = canon(wg.edges())
         exp.append(f"OCC {len(st['occ'])} KEPT {canon(st['occ'])} UNOCC {canon(st['unocc'])}".replace("'", ""))
         orig = canon(proto.edges())
         if len(kept) != occ: viol.append(f"T={T}, M={M}: the working network keeps {len(kept)} edges, floor(T*M) = {occ}")
-        elif sorted(wg.nodes()) != sorted(proto.nodes()): viol.append("the working network lost or gained nodes")
+        elif sorted(map(I, wg.nodes())) != sorted(map(I, proto.nodes())): viol.append("the working network lost or gained nodes")
         elif not set(kept) <= set(orig): viol.append(f"kept edges {kept} are not all original edges")
         elif canon(st['occ']) != kept: viol.append(f"occupy() was given {canon(st['occ'])}, the network keeps {kept}")
         elif sorted(canon(st['occ']) + canon(st['unocc'])) != orig: viol.append(f"occupied {canon(st['occ'])} and unoccupied {canon(st['unocc'])} do not partition the edge set {orig}")
-        elif canon(g.edges()) != orig or sorted(g.nodes()) != sorted(proto.nodes()): viol.append("the prototype network was modified")
-        elif spec.get('follow') and Probe.seen != kept: viol.append(f"the next component of the sequence was built on {Probe.seen}, the percolated network is {kept}")
+        elif canon(g.edges()) != orig or sorted(map(I, g.nodes())) != sorted(map(I, proto.nodes())): viol.append("the prototype network was modified")
+        elif wg is g: viol.append("the build worked on the prototype network itself")
+        elif spec.get('follow') and canon(Probe.seen) != kept: viol.append(f"the next component of the sequence was built on {Probe.seen}, the percolated network is {kept}")
     except RecursionError:
         raise
     except Exception as ex:
         info['exc'] = f"{type(ex).__name__}: {ex}"; exp.append(f"EXC {type(ex).__name__}")
         viol.append(f"build raised {type(ex).__name__}: {ex}")
-    inp = [f"PERC {bits(T)} " + ' '.join(f"{a}-{b}" for a, b in order.get('es', []))]
+    inp = [f"PERC {bits(T)} " + ' '.join(f"{I(a)}-{I(b)}" for a, b in order.get('es', []))]
     info['M'] = len(order.get('es', []))
     return inp, exp, info, [('perc', v) for v in viol[:1]]
 
@@ -311,7 +319,7 @@ def run_perc14(spec):
 def gen_shuf(rnd):
     n, edges = rand_graph(rnd, 4, 10, dens=rnd.choice([0.3, 0.5, 0.7]))
     f = rnd.choice([0.0, 0.1, 0.25, 0.5, 1.0, 1.5, rnd.random()])
-    return dict(kind='shuf', n=n, edges=edges, f=f, seed=rnd.random())
+    return dict(kind='shuf', n=n, edges=edges, f=f, seed=rnd.random(), sticky=rnd.choice([0.0, 0.0, 0.8, 0.9]), limit1=rnd.random() < 0.3)
 
 
 def run_shuf(spec):
@@ -319,10 +327,18 @@ def run_shuf(spec):
     rnd = random.Random(spec['seed'])
     shufmod.numpy = Shim(rnd)
 
+    sticky = spec.get('sticky', 0.0)
+
     class SRng:
+        last = None
+
         def integers(self, low, high=None):
             if high is None: low, high = 0, low
-            return rnd.randrange(low, high)
+            x = rnd.randrange(low, high)
+            # 'sticky' streams repeat the previous draw for long stretches, so rejection loops go round many times
+            if sticky and SRng.last is not None and SRng.last[0] == (low, high) and rnd.random() < sticky: x = SRng.last[1]
+            SRng.last = ((low, high), x)
+            return x
     import epydemic.bbt as bbt
     bbt.rng = SRng()
     n = spec['n']
@@ -332,7 +348,8 @@ def run_shuf(spec):
 
     class G2(nx.Graph):
         pass
-    d = StochasticDynamics(ShuffleK(), g)
+    from epydemic import FixedNetwork
+    d = StochasticDynamics(ShuffleK(), FixedNetwork(g, limit=1) if spec.get('limit1') else g)
     exp = []; viol = []; info = dict(samples=1, exc=None)
 
     def alarm(sig, frm):
@@ -374,6 +391,7 @@ def run_shuf(spec):
         elif len(set(orig) - set(es)) > 2 * imax: viol.append(f"f={f}, M={M}: {len(set(orig) - set(es))} original edges are gone, at most 2*floor(f*M) = {2 * imax} allowed")
         elif imax == 0 and es != orig: viol.append(f"f={f} (floor(f*M) = 0) but the network changed: {sorted(set(orig) ^ set(es))}")
         elif sorted(tuple(sorted(e)) for e in g.edges()) != orig: viol.append("the prototype network was modified")
+        elif wg is g: viol.append("the build worked on the prototype network itself")
     except TimeoutError:
         return None
     except RecursionError:
